@@ -219,7 +219,7 @@ def verify(contract, registry, tier='quick', mutate=None):
         return rep
     SX.number_loops(node)
     reg = {k: c for k, c in registry.items() if k != contract.key or getattr(contract, 'recursive', False)}
-    en = Engine(contract.key.split('::')[0], contract=contract, registry=reg)
+    en = Engine(contract.key.split('::')[0], contract=contract, registry=reg, timeout=getattr(contract, 'prune_ms', 250))
     qual = contract.key.split('::')[1]
     if '.' in qual and qual.split('.')[-2] in T.classes:
         en.current_class = qual.split('.')[-2]
